@@ -50,6 +50,9 @@ package phase5
 //@   requires g != nil && routesOK(routes)
 //@   requires[noflat|C17] forall i int :: 0 <= i && i < len(routes) ==> routes[i].From.Layer != routes[i].To.Layer
 //@   requires forall i int :: 0 <= i && i < len(routes) ==> routes[i].Points == nil
+//@   requires[bands|C01] forall i int :: 0 <= i && i < len(routes) ==> 0 <= routes[i].From.Layer && routes[i].From.Layer < len(g.Layers) && g.Layers[routes[i].From.Layer] != nil
+//@   requires[inner|C01] forall i int, j int :: 0 <= i && i < len(routes) && 0 < j && j < len(routes[i].ns) - 1 ==>
+//@       routes[i].ns[j].IsVirtual && 0 <= routes[i].ns[j].Layer && routes[i].ns[j].Layer < len(g.Layers) && g.Layers[routes[i].ns[j].Layer] != nil
 //@   modifies Edge.Points, Elems[[2]float64], alloc
 //@   ensures[ends|C05,C06] forall i int :: 0 <= i && i < len(routes) && routes[i].From.Layer != routes[i].To.Layer ==> polyEnds(routes[i])
 //@   ensures[bends|C06,C12] forall i int :: 0 <= i && i < len(routes) && routes[i].From.Layer != routes[i].To.Layer ==> polyBends(g, routes[i])
